@@ -461,6 +461,68 @@ TARGETS.append(dict(
     alias="def parseOpts (buf : List Nat) (is_syn : Bool) : List Nat × QSet × Nat × Nat × Nat × Int := P0f.optsTuple (P0f.parseOpts buf is_syn)\n",
 ))
 
+# ---------------------------------------------------------------------------------------------- C05 / C14: the impersonator's header logic
+def _kw_tuple(*wanted):
+    """constructor call of a Scapy layer: the tuple of the listed keyword arguments, `None` standing for a constant"""
+    def mk(fn, args, kw, env):
+        if args:
+            raise NotTranslatable("positional constructor arguments")
+        parts = []
+        for w, ty, dflt in wanted:
+            if w is None or w not in kw:
+                if dflt is None:
+                    raise NotTranslatable(f"constructor without {w}")
+                parts.append(dflt)
+                continue
+            node = kw[w]
+            if w == "options" and isinstance(node, ast.BinOp) and isinstance(node.op, ast.Mult) and isinstance(node.left, ast.List):
+                node = node.right          # `[IPOption_NOP()] * n`: n one-byte options
+            parts.append(fn.coerce(node, env, ty))
+        return ("(" + ", ".join(parts) + ")", "Tuple:" + ",".join(ty for _, ty, _ in wanted))
+    return mk
+
+
+IMP_IP_RET = "Tuple:Int,Nat,Nat,Nat,Nat,Nat"       # ttl / hlim, tos / tc, id, flags, number of IP options, flow label
+TARGETS.append(dict(
+    module="pyp0f.impersonate.tcp", func="_impersonate_ip", file="ImpersonateIp", lean="impIp", import_="P0f.Model.ImpFields",
+    pyparams=["ip", "signature", "extra_hops"], params=[("s", "Sig"), ("b", "Base"), ("hops", "Int"), ("c", "Choices")],
+    ret=IMP_IP_RET, lean_ret="Int × Nat × Nat × Nat × Nat × Nat",
+    env={"ip.version": ("b.ipVer", "Nat"), "ip.flags": ("b.ipFlags", "Nat"), "ip.id": ("b.ipId", "Nat"), "ip.src": ("()", "Unit"), "ip.dst": ("()", "Unit"),
+         "ip.frag": ("()", "Unit"), "ip.proto": ("()", "Unit"),
+         "signature.ttl": ("s.ttl", "Nat"), "signature.quirks": ("s.quirks", "QSet"), "signature.ip_options_length": ("s.olen", "Nat"),
+         "extra_hops": ("hops", "Int")},
+    random_sites=[("c.fl", "Nat"), ("c.ecn", "Nat"), ("c.id", "Nat"), ("c.id", "Nat"), ("c.ecn", "Nat")],
+    calls={"ScapyIPv6": _kw_tuple(("hlim", "Int", None), ("tc", "Nat", None), (None, "Nat", "0"), (None, "Nat", "0"), (None, "Nat", "0"), ("fl", "Nat", None)),
+           "ScapyIPv4": _kw_tuple(("ttl", "Int", None), ("tos", "Nat", None), ("id", "Nat", None), ("flags", "Nat", None), ("options", "Nat", None), (None, "Nat", "0"))},
+    alias="def impIp (s : Sig) (b : Base) (hops : Int) (c : Choices) : Int × Nat × Nat × Nat × Nat × Nat := P0f.impIpFields s b hops c\n",
+))
+
+
+def _imp_tcp_pre(stmts):
+    return [st for st in stmts if not (isinstance(st, ast.Assign) and ast.unparse(st.targets[0]) == "options")]
+
+
+TARGETS.append(dict(
+    module="pyp0f.impersonate.tcp", func="_impersonate_tcp", file="ImpersonateTcpHeader", lean="impTcpHeader", import_="P0f.Model.Impersonate",
+    pyparams=["tcp", "signature", "mtu", "uptime"], params=[("s", "Sig"), ("b", "Base"), ("c", "Choices")],
+    ret="Tuple:Nat,Nat,Nat,Nat", lean_ret="Nat × Nat × Nat × Nat", pre=_imp_tcp_pre,
+    env={"tcp.seq": ("b.seq", "Nat"), "tcp.ack": ("b.ack", "Nat"), "tcp.flags": ("b.flags", "Flags"), "tcp.urgptr": ("b.urp", "Nat"),
+         "tcp.sport": ("()", "Unit"), "tcp.dport": ("()", "Unit"), "signature.quirks": ("s.quirks", "QSet")},
+    random_sites=[("c.seq", "Nat"), ("c.ack", "Nat"), ("c.urp", "Nat")],
+    calls={"ScapyTCP": _kw_tuple(("seq", "Nat", None), ("ack", "Nat", None), ("flags", "Nat", None), ("urgptr", "Nat", None))},
+    alias="def impTcpHeader (s : Sig) (b : Base) (c : Choices) : Nat × Nat × Nat × Nat := (P0f.impSeq s b c, P0f.impAck s b c, P0f.impFlags s b.flags, P0f.impUrp s b c)\n",
+))
+
+TARGETS.append(dict(
+    module="pyp0f.impersonate.tcp", func="_impersonate_window", file="ImpersonateWindow", lean="impWindow", import_="P0f.Model.Impersonate",
+    pyparams=["tcp", "signature", "new_options", "mtu"], params=[("s", "Sig"), ("b", "Base"), ("opts", "List SOpt"), ("mtu", "Nat"), ("c", "Choices")],
+    ret="Opt:Nat", lean_ret="Option Nat",
+    env={"signature.window.type": ("s.wtype", "Enum:WinType"), "signature.window.size": ("s.wsize", "Nat"), "tcp.window": ("b.window", "Nat"), "mtu": ("mtu", "Nat")},
+    random_sites=[("c.winMul", "Nat")], raises={"ValueError": "none"},
+    calls={"dict(new_options).get": lambda fn, a, k, e: ("(lastMss opts)", "Opt:Nat")},
+    alias="def impWindow (s : Sig) (b : Base) (opts : List SOpt) (mtu : Nat) (c : Choices) : Option Nat := (P0f.impWindow s b opts mtu c).toOption\n",
+))
+
 for t in TARGETS:
     if "import_" in t:
         t["import"] = t.pop("import_")
